@@ -9,5 +9,7 @@ CONSTANTS
   Caught = {"TypeError","ValueError"}
 INVARIANT RoundTrip
 INVARIANT NoError
+INVARIANT SizeArith
+INVARIANT SizeFirm
 CONSTRAINT Emit
 CHECK_DEADLOCK FALSE
